@@ -101,15 +101,24 @@ def c11(tier, seed, replay_path=None):
         runs.append(res)
         gen_counts[tag] = {"behaviours": n}
         aggs.append(fc.replay(binary, path, seed, level=0, extra_env=env))
+        if tag == "h":
+            # a slice of the same histories with the REAL websocket server (centrifuge node) and a real subscribed client
+            sub = os.path.join(os.path.dirname(path), "C11ws.jsonl")
+            with open(path) as fi, open(sub, "w") as fo:
+                for i, line in enumerate(fi):
+                    if i % (6 if tier == "quick" else 3) == 0:
+                        fo.write(line)
+            aggs.append(fc.replay(binary, sub, seed, level=0, extra_env=dict(env, VERIF_WSREAL="1"), nproc=8))
     agg = merge(aggs)
     st = agg["stats"]
     if st.get("events-expected", 0) == 0 or st.get("res:duplicate", 0) == 0 or st.get("res:forbidden", 0) == 0 or st.get("fault:err", 0) == 0:
         raise c.Infra("vacuous run: %s" % dict(st))
     v = verdict_from(agg, kinds, "C11", tier, runs, {"generation": gen_counts, "events_expected_and_compared_per_channel": st.get("events-expected", 0),
                                                     "channels": ["plain recorder", "slow | blocking-for-ever | ok recorder", "real websocket channel over a recording (sometimes failing) publisher",
-                                                                 "real WebhooksService over the SQL repository with a recording client (200 | transport error | 500)", "plain recorder registered last"]})
+                                                                 "real WebhooksService over the SQL repository with a recording client (200 | transport error | 500)", "plain recorder registered last",
+                                                                 "real websocket server (centrifuge node) with a real centrifuge client subscribed to `headers` (a slice of the histories)"]})
     v["assumptions"] = ASSUME + ["deliveries are awaited with a 2 s deadline per step; a later duplicate delivery is caught at the end of the behaviour (2 ms grace)",
-                                 "the websocket channel is bound through a recording WebsocketPublisher (the centrifuge node itself is not part of this check)"]
+                                 "the websocket channel is bound through a recording WebsocketPublisher for all histories and through the real centrifuge node + client for a slice of them"]
     return v
 
 
